@@ -34,6 +34,7 @@ static const char* EXTS[4] = {"v1", "w", "v2", "v1"};
 typedef struct { OB trace; int rc; int nmsg; int nrule; int abort_at; int error_at; } TCTX;   /* abort_at / error_at: index of the RULE message answered with abort / error */
 static TCTX tc[YV_MAXT], solo[YV_MAXT];
 static int nthreads, rules_level, scenario_abort;
+static int flags_sel[YV_MAXT];   /* scanner flags a thread sets on ITS scanner before scanning ("fast": thread 0 scans in fast mode, thread 1 must not notice) */
 static int bufsel[YV_MAXT];   /* which buffer a thread scans ("same-size": two different buffers of equal length, so that per-scan caches keyed by offset and length collide) */
 static OB viol;
 static void* H0;
@@ -53,7 +54,7 @@ static int cb(YR_SCAN_CONTEXT* ctx, int msg, void* data, void* ud) {
   case CALLBACK_MSG_RULE_MATCHING: case CALLBACK_MSG_RULE_NOT_MATCHING: {
     YR_RULE* r = (YR_RULE*) data; YR_STRING* s; YR_MATCH* m;
     ob_puts(&t->trace, msg == CALLBACK_MSG_RULE_MATCHING ? "m:" : "n:"); ob_puts(&t->trace, r->identifier);
-    yr_rule_strings_foreach(r, s) { yr_string_matches_foreach(ctx, s, m) { snprintf(b, sizeof b, "@%lld/%d", (long long)(m->base + m->offset), m->match_length); ob_puts(&t->trace, b); } }
+    yr_rule_strings_foreach(r, s) { yr_string_matches_foreach(ctx, s, m) { snprintf(b, sizeof b, "@%lld/%d/%d:%02x", (long long)(m->base + m->offset), m->match_length, m->data_length, m->data_length > 0 && m->data ? m->data[0] : 0); ob_puts(&t->trace, b); } }
     break; }
   case CALLBACK_MSG_IMPORT_MODULE: ob_puts(&t->trace, "imp:"); ob_puts(&t->trace, ((YR_MODULE_IMPORT*) data)->module_name); break;
   case CALLBACK_MSG_MODULE_IMPORTED: ob_puts(&t->trace, "imd:"); ob_puts(&t->trace, ((YR_OBJECT*) data)->identifier); break;
@@ -107,6 +108,7 @@ static void body(int t, TCTX* c) {
   yv_point("api:create");
   if (yr_scanner_create(rules, &sc) != ERROR_SUCCESS) { c->rc = -1; return; }
   yr_scanner_set_callback(sc, cb, c);
+  if (flags_sel[t]) { yr_scanner_set_flags(sc, flags_sel[t]); yr_scanner_set_timeout(sc, 1000); }
   yv_point("api:define");
   yr_scanner_define_string_variable(sc, "ext", EXTS[t % 4]);
   yv_point("api:scan");
@@ -146,7 +148,7 @@ static void invariants(const char* label) {
 static void setup_scenario(const char* name) {
   nthreads = 2; rules_level = 0; scenario_abort = 0; scenario_files = 0;
   for (int t = 0; t < YV_MAXT; t++) { memset(&tc[t], 0, sizeof tc[t]); memset(&solo[t], 0, sizeof solo[t]); tc[t].abort_at = tc[t].error_at = solo[t].abort_at = solo[t].error_at = -1; }
-  for (int t = 0; t < YV_MAXT; t++) bufsel[t] = t % 4;
+  for (int t = 0; t < YV_MAXT; t++) { bufsel[t] = t % 4; flags_sel[t] = 0; }
   if (!strcmp(name, "two")) { }
   else if (!strcmp(name, "same-size")) { bufsel[1] = 2; }
   else if (!strcmp(name, "files")) {
@@ -154,6 +156,7 @@ static void setup_scenario(const char* name) {
     for (int t = 0; t < 2; t++) { snprintf(fpath[t], sizeof fpath[t], "%s/c09_file_%d_%d.bin", g_tmp, (int) getpid(), t); FILE* f = fopen(fpath[t], "wb"); if (f) { fputs(BUFS[bufsel[t]], f); fclose(f); } }
   }
   else if (!strcmp(name, "tmm")) { bufsel[0] = 4; bufsel[1] = 5; }   /* thread 0 hits the match limit of $q (answers CONTINUE) while thread 1 needs every match of $q */
+  else if (!strcmp(name, "fast")) { flags_sel[0] = SCAN_FLAGS_FAST_MODE; bufsel[0] = 2; bufsel[1] = 0; }
   else if (!strcmp(name, "three")) nthreads = 3;
   else if (!strcmp(name, "abort")) { tc[1].abort_at = solo[1].abort_at = 2; }
   else if (!strcmp(name, "error")) { tc[0].error_at = solo[0].error_at = 1; }
